@@ -85,6 +85,9 @@ inductive Stmt where
   | del (lbl : Nat)
   /-- `MERGE (:L {k: K})` -/
   | merge (lbl : Nat) (k : Nat)
+  /-- `UNWIND ds AS d MATCH (n:L) SET n.q = d, n.p = toBoolean(d)`: the same property slots of the same nodes are
+      written once per list element; `toBoolean(1)` fails after earlier elements have been staged -/
+  | setrep (lbl : Nat) (ds : List Q)
   /-- a statement that is refused before execution: syntax error, or a read statement sent to the write API -/
   | refused
 deriving Repr, DecidableEq
@@ -96,6 +99,7 @@ def Stmt.reads : Stmt → Option Nat
   | .setw l _ _ => some l
   | .del l => some l
   | .merge l _ => some l
+  | .setrep l _ => some l
   | .refused => none
 
 /-- the label whose nodes a statement may write -/
@@ -105,6 +109,7 @@ def Stmt.writes : Stmt → Option Nat
   | .setw l _ _ => some l
   | .del l => some l
   | .merge l _ => some l
+  | .setrep l _ => some l
   | .refused => none
 
 /-- result of executing one statement: what it staged (in order) and whether it then failed -/
@@ -141,6 +146,26 @@ def execSetp (lbl : Nat) : List Node → Res
       let r := execSetp lbl ns
       ⟨.setP n.id lbl v :: r.prims, r.failed⟩
 
+/-- one UNWIND element of `setrep` over the matched nodes: per node `q` is staged, then `p` is evaluated -/
+def execSetRepRow (lbl : Nat) (d : Q) : List Node → Res
+  | [] => ⟨[], false⟩
+  | n :: ns =>
+    match toBool (some d) with
+    | .error _ => ⟨[.setQ n.id lbl d], true⟩
+    | .ok v =>
+      let r := execSetRepRow lbl d ns
+      ⟨.setQ n.id lbl d :: .setP n.id lbl v :: r.prims, r.failed⟩
+
+/-- `UNWIND ds … MATCH (n:L) SET …`: the outer loop is the list, the inner loop the matched nodes -/
+def execSetRep (lbl : Nat) (nodes : List Node) : List Q → Res
+  | [] => ⟨[], false⟩
+  | d :: ds =>
+    let r := execSetRepRow lbl d nodes
+    if r.failed then r
+    else
+      let rest := execSetRep lbl nodes ds
+      ⟨r.prims ++ rest.prims, rest.failed⟩
+
 /-- the nodes a statement sees: `view` restricted to its label -/
 def scan (view : Graph) (lbl : Nat) : List Node := view.filter (fun n => n.lbl = lbl)
 
@@ -153,6 +178,7 @@ def exec (view : Graph) (next : Nat) : Stmt → Res
   | .merge l k =>
     if (scan view l).any (fun n => n.k = k) then ⟨[], false⟩
     else ⟨[.add ⟨next, l, k, none, none⟩], false⟩
+  | .setrep l ds => execSetRep l (scan view l) ds
   | .refused => ⟨[], true⟩
 
 /-- database + at most one explicit write transaction -/
